@@ -132,6 +132,11 @@ pub fn c05_alphabet(ts: u8, hsa: u8) -> Vec<Sym> {
     v.push(Sym::Raw(vec![0xDC, ts, 0x01 ^ 0xFF], Gap::G11));
     v.push(Sym::Raw(vec![0x68, 0x09, 0x09, 0x68, ts, a], Gap::G11));
     v.push(Sym::Raw(vec![0xFF, 0x16, 0x10], Gap::G33));
+    // an SD2 header that announces more than any telegram may have (LE 255), an SD3 telegram cut short, a lone
+    // start delimiter
+    v.push(Sym::Raw(vec![0x68, 0xFF, 0xFF, 0x68, ts, a], Gap::G11));
+    v.push(Sym::Raw(vec![0xA2, ts, a, 0x08, 1, 2, 3], Gap::G11));
+    v.push(Sym::Raw(vec![0x68], Gap::G11));
     v.push(Sym::Collide(rc::token(ts, a)));
     v.push(Sym::Collide(rc::RFrame::Sc));
     v.push(Sym::SetOffline);
